@@ -6,10 +6,10 @@ CONSTANTS
   MaxFixed = 2
   CovSpecial = "repaired"
   Menu <- MCMenu
-  BadOps = FALSE
-  MaxOps = 4
+  BadOps = TRUE
+  MaxOps = 3
 SPECIFICATION RC_Spec
-VIEW RC_View
+
 CHECK_DEADLOCK FALSE
 INVARIANT PL_Bijection
 INVARIANT PL_Counts
@@ -22,3 +22,4 @@ INVARIANT SubOrder
 INVARIANT SpecialTableOK
 INVARIANT FixedInRange
 INVARIANT DefaultUnique
+INVARIANT RC_Emit
